@@ -50,6 +50,7 @@ PROP = [  # (subject fragment, property)
  ("gd_move of a reference field", "C07"), ("GD_DEL_DEREF must mark the client's fragment", "C07"), ("whose /REFERENCE it changes modified", "C07"),
  ("NULL that _GD_StripCode returns", "C07"), ("differ from its rewritten parent's", "C07"), ("strip field names with GD_CO_NAME", "C07"),
  ("window that began before sample zero", "C01"), ("must not index beyond the end of the CARRAY", "C05"), ("scalar field equal to zero", "C05"),
+ ("failing BZ2_bzRead must invalidate", "C02"), ("LINCOM with real scalars read as a complex type", "C01"), ("gd_add must record the sample size", "C03"),
  ("MPLEX look-back must restore", "C02"), ("invalidate the MPLEX start-value cache", "C02"), ("failing out-of-place write must report", "C14"), ("close failures while replacing", "C14"),
 ]
 out = subprocess.run(["git", "-C", os.environ.get("VERIF_REPO", "/repo"), "log", "--reverse", "--format=%h %s"], stdout=subprocess.PIPE).stdout.decode()
